@@ -265,7 +265,9 @@ def map_children(t, r):
         return ("un", t[1], r(t[2]))
     if k in ("and", "or", "tuple", "list", "set", "fstr"):
         return (k, tuple(r(x) for x in t[1]))
-    if k in ("not", "star", "dstar", "enter", "yielded", "await"):
+    if k == "not":
+        return neg(r(t[1]))   # stays in normal form when the operand was rewritten into a comparison
+    if k in ("star", "dstar", "enter", "yielded", "await"):
         return (k, r(t[1]))
     if k == "ite":
         return ite(r(t[1]), r(t[2]), r(t[3]))
@@ -1279,10 +1281,22 @@ class _FuncEval:
             return ("attr", args[0], args[1][1])  # getattr(x, 'name') is x.name
         if fn[0] == "ite":
             # a call through a conditionally chosen function is the conditional of the calls
-            def dist(f):
+            def assume(t, cond, pol):
+                # inside the branch taken when `cond` is pol, a nested conditional on the same condition is decided
+                def g(x):
+                    if x[0] == "ite" and x[1] == cond:
+                        return x[2] if pol else x[3]
+                    return x
+                return rebuild(t, g)
+
+            def dist(f, a=args, kw=kwargs):
                 if f[0] == "ite":
-                    return ite(f[1], dist(f[2]), dist(f[3]))
-                c = ("call", f, args, kwargs)
+                    at = tuple(assume(x, f[1], True) for x in a)
+                    af = tuple(assume(x, f[1], False) for x in a)
+                    kt = tuple((k, assume(v, f[1], True)) for k, v in kw)
+                    kf = tuple((k, assume(v, f[1], False)) for k, v in kw)
+                    return ite(f[1], dist(f[2], at, kt), dist(f[3], af, kf))
+                c = ("call", f, a, kw)
                 nm = f[2] if f[0] == "attr" else None
                 if nm and f[1] == SELF and self.func.cls is not None:
                     m = self.func.cls.lookup(nm)
@@ -1297,6 +1311,12 @@ class _FuncEval:
         except Exception:  # noqa: BLE001
             targets = []
         targets = [f for f in (targets or []) if isinstance(f, FuncInfo)]
+        if not targets and fn[0] == "attr" and fn[1] in (SELF, ("param", "cls")) and self.func.cls is not None:
+            # self.method(...) / cls.method(...): the method of the enclosing class (overrides are by-name siblings)
+            m = self.func.cls.lookup(fn[2])
+            if m is not None and m.kind != "property" and not self.ix.subclasses(self.func.cls) or (
+                    m is not None and m.kind == "staticmethod"):
+                targets = [m]
         if targets:
             self.summ.precise.add(t)
         else:
